@@ -79,6 +79,8 @@ impl HLCTimestamp {
     /// This internally gets the current UNIX timestamp in seconds.
     pub fn now(counter: u16, node: u8) -> Self {
         let duration = get_datacake_timestamp();
+        #[cfg(datacake_verif)]
+        let duration = verif_wall(Some(node)).unwrap_or(duration);
         Self::new(duration, counter, node)
     }
 
@@ -152,6 +154,8 @@ impl HLCTimestamp {
     /// for transmission to another system.
     pub fn send(&mut self) -> Result<Self, TimestampError> {
         let ts = get_datacake_timestamp();
+        #[cfg(datacake_verif)]
+        let ts = verif_wall(Some(self.node())).unwrap_or(ts);
 
         let ts_old = self.datacake_timestamp();
         let c_old = self.counter();
@@ -185,6 +189,8 @@ impl HLCTimestamp {
         }
 
         let ts = get_datacake_timestamp();
+        #[cfg(datacake_verif)]
+        let ts = verif_wall(Some(self.node())).unwrap_or(ts);
 
         // Unpack the message wall time/counter
         let ts_msg = msg.datacake_timestamp();
@@ -342,10 +348,25 @@ pub fn get_unix_timestamp_ms() -> u64 {
 /// This timestamp is ensured to be accurate taking into account the
 /// resolution lost when converting the timestamp.
 pub fn get_datacake_timestamp() -> Duration {
+    #[cfg(datacake_verif)]
+    if let Some(wall) = verif_wall(None) {
+        return wall;
+    }
+
     let duration = SystemTime::now().duration_since(UNIX_EPOCH).unwrap();
 
     let (seconds, fractional) = duration_to_parts(duration - DATACAKE_EPOCH);
     parts_as_duration(seconds, fractional)
+}
+
+#[cfg(datacake_verif)]
+/// The injected wall clock, truncated to the timestamp's resolution exactly
+/// like the real wall clock reading is.
+fn verif_wall(node: Option<u8>) -> Option<Duration> {
+    crate::verif::wall(node).map(|wall| {
+        let (seconds, fractional) = duration_to_parts(wall);
+        parts_as_duration(seconds, fractional)
+    })
 }
 
 #[cfg(test)]
